@@ -1,7 +1,7 @@
 """C19 - shallow groundwater behaves consistently (kind B, exploration)."""
 import numpy as np
 
-from .common import std_case, std_run, config_sig, STATE_MEASURE  # noqa: F401
+from .common import table_jump_regime, TABLE_JUMP_PROFILE, std_case, std_run, config_sig, STATE_MEASURE  # noqa: F401
 from ..monitors import mon_c19
 from ..node import Node, diff_tables, FI
 from ..spec import clone
@@ -27,7 +27,15 @@ def gen_case(rng, tier, idx):
     prof = dict(PROFILE)
     if mode != "table":
         prof["gw"] = 0.0
+    if idx % 4 == 1:
+        # layered custom soils (often the same material at two bulk densities) with the table inside or just below the profile
+        mode = "table"
+        prof.update({"gw": 1.0, "custom_soil_p": 1.0, "same_fc_layers_p": 0.6, "gw_depths": [0.3, 0.45, 0.55, 0.75, 0.95, 1.05, 1.2, 1.5, 2.0]})
     case = std_case(rng, prof)
+    if idx % 4 == 3:
+        # the table jumps between a shallow and a deep regime inside the growing seasons, with rain on the day of the move
+        mode = "table"
+        case = table_jump_regime(rng, std_case(rng, dict(PROFILE, **TABLE_JUMP_PROFILE)))
     case["mode"] = mode
     iwc = case["spec"]["iwc"]
     if mode == "far" and iwc["wc_type"] == "Prop" and "FC" in iwc["value"]:
